@@ -487,7 +487,22 @@ func runHist(c *hx.Ctx, h *Hist, verbose bool) {
 	shadow := map[int64][]*big.Int{} // id -> getters right after the Snapshot() that returned id
 	var steps []stepRec
 	maxDepth, reverts, restoredAfterChange := 0, 0, 0
-	prev := e.observe()
+	// safeObserve: a getter that panics (possible only when the memdb structure is corrupted, e.g. by
+	// sharing between a snapshot and the live memdb) ends the history with an oracle failure.
+	safeObserve := func(step int) ([]*big.Int, bool) {
+		var v []*big.Int
+		kind, msg := try(func() { v = e.observe() })
+		if kind != rOK {
+			c.Fail("getter-panics", "a StateDB getter panicked during a history of snapshot/revert calls", h,
+				map[string]interface{}{"step": step, "panic": msg}, "getters answer")
+			return nil, false
+		}
+		return v, true
+	}
+	prev, ok := safeObserve(-1)
+	if !ok {
+		return
+	}
 
 	for i, o := range h.Ops {
 		if o.A < 0 || o.A >= len(e.addrs) || o.S < 0 || o.S >= len(e.slots) {
@@ -568,7 +583,10 @@ func runHist(c *hx.Ctx, h *Hist, verbose bool) {
 			retRet, retCode = "RFault", []*big.Int{big.NewInt(4)}
 			c.Count("fault:" + o.Op)
 		}
-		cur := e.observe()
+		cur, ok := safeObserve(i)
+		if !ok {
+			return
+		}
 		dberr := sd.DbErr() != nil
 
 		// ----- oracle (implementation only) -----
@@ -661,9 +679,18 @@ func runHist(c *hx.Ctx, h *Hist, verbose bool) {
 		ss = append(ss, coqWord(s[:]))
 	}
 	head := fmt.Sprintf("%s %s %s %s", tbl.coq(), hx.CoqList(as), hx.CoqList(ss), hx.CoqList(backend))
-	mem := cache.VerifDumpMem()
-	suic := sd.VerifSuicided()
-	snapsV := sd.VerifSnapshots()
+	var mem []storage.VerifKV
+	var suic []ethcomm.Address
+	var snapsV []storage.VerifSnapshotView
+	if kind, msg := try(func() {
+		mem = cache.VerifDumpMem()
+		suic = sd.VerifSuicided()
+		snapsV = sd.VerifSnapshots()
+	}); kind != rOK {
+		c.Fail("memdb-corrupt", "enumerating the live memdb or a saved snapshot panicked at the end of a history", h,
+			map[string]interface{}{"panic": msg}, "ForEach enumerates the entries")
+		return
+	}
 	var term string
 	if verbose {
 		var st, snaps []string
